@@ -77,7 +77,7 @@ def rand_pair(rng, reject=False):
     for _ in range(nops):
         kind = rng.choice(['root', 'leaf', 'leaf', 'chain', 'ringleaf', 'zeroring'])
         if reject:
-            kind = rng.choice(['root', 'leaf'])
+            kind = rng.choice(['root', 'leaf', 'chainbad', 'chainbad', 'ringbad', 'ringbad'])
         v = nxt
         bad_order = rng.choice([1, 1, 2]) if reject else 0
         if kind == 'root' and 'root' not in ops:
@@ -90,6 +90,22 @@ def rand_pair(rng, reject=False):
             m_children[p].insert(pos, v)
             m_children[v] = []
             m_orders[(p, v)] = bad_order
+        elif kind == 'chainbad' and m_orders:
+            # virtual node inside a tree edge: one side order 0, the other side order >= 1 (either side first)
+            p, c = rng.choice(sorted(m_orders))
+            first_bad = rng.random() < 0.5
+            m_children[p][m_children[p].index(c)] = v
+            m_children[v] = [c]
+            del m_orders[(p, c)]
+            m_orders[(p, v)] = bad_order if first_bad else 0
+            m_orders[(v, c)] = 0 if first_bad else bad_order
+        elif kind == 'ringbad' and len(real) >= 2:
+            # virtual leaf on a zero-order edge with an additional ring bond of order >= 1
+            p, r2 = rng.sample(real, 2)
+            m_children[p].append(v)
+            m_children[v] = []
+            m_orders[(p, v)] = 0
+            m_rings.append((r2, v, bad_order))
         elif kind == 'chain':
             cands = [(p, c) for (p, c), o in m_orders.items() if o == 0 and p in real and c in real]
             if not cands:
@@ -161,7 +177,7 @@ class C11(RS.StepProp):
     fail_fn = 'C11Check.prop_fail'
     shard = 8
     quick_cases = 110
-    thorough_cases = 2500
+    thorough_cases = 700
     extended_cases = 500
     fail_text = {1: 'the fine molecule (nodes, attributes other than fragid, edges) changed when virtual nodes / zero-order edges were inserted',
                  2: 'fragid of a fine node is not the renamed coarse key of its coarse node',
@@ -183,6 +199,8 @@ class C11(RS.StepProp):
             {'kind': 0, 'orig': '{[#A][#B]}' + cg, 'modf': '{[#A].1[#B].[#V]1}' + cg, 'rho': [[0, 0], [1, 1]], 'aa': False, 'legacy': True},
             {'kind': 1, 'orig': '{[#A][#B]}' + fr, 'modf': '{[#V][#A][#B]}' + fr, 'rho': [[0, 1], [1, 2]], 'aa': True, 'legacy': True},
             {'kind': 1, 'orig': '{[#A][#B]}' + cg, 'modf': '{[#A][#B]=[#V]}' + cg, 'rho': [[0, 0], [1, 1]], 'aa': False, 'legacy': True},
+            {'kind': 1, 'orig': '{[#A][#B]}' + cg, 'modf': '{[#A].[#V][#B]}' + cg, 'rho': [[0, 0], [1, 2]], 'aa': False, 'legacy': True},
+            {'kind': 1, 'orig': '{[#A][#B]}' + fr, 'modf': '{[#A][#V].[#B]}' + fr, 'rho': [[0, 0], [1, 2]], 'aa': True, 'legacy': True},
         ]
 
     def generate(self, ctx, n):
